@@ -113,9 +113,9 @@ func init() {
 		Required:      []string{"cell:nodeset-number", "cell:number-nodeset", "cell:nodeset-string", "cell:string-nodeset", "cell:nodeset-nodeset", "cell:number-number", "cell:string-string", "shortcircuit", "shape:booleanQuery", "shape:logicalQuery"},
 		Families: []Family{
 			witnessFamily("C07"),
-			{Name: "matrix", N: tierN(600, 6000), Run: c07Matrix},
-			{Name: "boolops", N: tierN(400, 4000), Run: c07BoolOps},
-			{Name: "rand", N: tierN(40000, 600000), Run: c07Random},
+			{Name: "matrix", N: tierN(1200, 12000), Run: c07Matrix},
+			{Name: "boolops", N: tierN(1000, 10000), Run: c07BoolOps},
+			{Name: "rand", N: tierN(150000, 1500000), Run: c07Random},
 		},
 	})
 }
